@@ -54,6 +54,10 @@ class Placement:
 
     def __init__(self, data):
         self.d = data
+        # "bare": the one-sheet dictionary of the README - keys and references
+        # without workbook and sheet ('A1', 'A1:B2', 'RATE'); dictionary
+        # schedules of one-book one-sheet worlds only
+        self.bare = bool(data.get('bare'))
 
     def file(self, b):
         return self.d['books'][b]['file']
@@ -82,9 +86,13 @@ class Placement:
         ).replace("'", "''"))
 
     def cell_id(self, b, s, r, c):
+        if self.bare:
+            return self.a1(b, s, r, c)
         return '%s!%s' % (self.sheet_id(b, s), self.a1(b, s, r, c))
 
     def rect_id(self, b, s, r1, c1, r2, c2):
+        if self.bare:
+            return self.rect_a1(b, s, r1, c1, r2, c2)
         return '%s!%s' % (self.sheet_id(b, s),
                           self.rect_a1(b, s, r1, c1, r2, c2))
 
@@ -99,15 +107,21 @@ class Placement:
         return '%s%s:%s%s' % (d1, col_letters(col1), d2, col_letters(col2))
 
     def whole_id(self, e):
+        if self.bare:
+            return self.whole_a1(e)
         return '%s!%s' % (self.sheet_id(e[1], e[2]), self.whole_a1(e))
 
     def name_id(self, b, k):
+        if self.bare:
+            return self.d['names'][k].upper()
         return "'[%s]'!%s" % (self.file(b), self.d['names'][k].upper())
 
     def vname(self, k):
         return 'VOL_%s' % chr(65 + k)
 
     def vname_id(self, b, k):
+        if self.bare:
+            return self.vname(k)
         return "'[%s]'!%s" % (self.file(b), self.vname(k))
 
 
@@ -215,8 +229,7 @@ class Renderer:
         if self.mode == 'dict':
             if whole:
                 return self.p.whole_id(e)
-            return '%s!%s' % (self.p.sheet_id(b, s),
-                              self.p.rect_a1(b, s, r1, c1, r2, c2))
+            return self.p.rect_id(b, s, r1, c1, r2, c2)
         dollar = st.randrange(16) if st and st.random() < .3 else 0
         a1 = self.p.whole_a1(e, dollar) if whole else \
             self.p.rect_a1(b, s, r1, c1, r2, c2, dollar)
@@ -275,7 +288,7 @@ class Renderer:
         if k == 'x':      # reference intersection
             return ' '.join(self.render(x, host) for x in e[1:])
         if k == 'un':     # a name that is defined nowhere
-            if self.mode == 'dict':
+            if self.mode == 'dict' and not self.p.bare:
                 return "'[%s]'!%s" % (self.p.file(host[0]), e[1])
             return e[1]
         if k == 'arr':    # array literal {1,2;3,4}
